@@ -194,12 +194,17 @@ var azRename = map[string]string{
 	"AuthResponse()":                     "AuthResponse now o d",
 	"AuthResponseCode()":                 "AuthResponseCode now o d",
 	"AuthResponseToken()":                "AuthResponseToken now o d",
-	"AuthResponseFormPost()":             "Hand.AuthResponseFormPost now",
+	"AuthResponseFormPost()":             "Hand.runFormPost (AuthResponseFormPost now (d).FormTemplate)",
 	"s.server.VerifyAuthRequest()":       "LegacyVerifyAuthRequest now d (s).server",
 	"s.server.Authorize()":               "LegacyAuthorize now o d (s).server",
 	"ClientRequest{}":                    "Hand.mkClientRequest",
 	"<*ast.StructType>{}":                "Hand.codeResponse",
 }
+
+// Lean twins of the Go types an extracted helper of this slice may take (autofollow.go)
+var azAutoTypes = map[string]string{"Client": "OPClient", "oidc.ResponseType": "String", "oidc.ResponseMode": "String", "*url.URL": "URL",
+	"ErrAuthRequest": "ErrReq", "AuthRequest": "AzStored", "*oidc.AuthRequest": "AuthRequestData", "Authorizer": "AzProvider", "*oidc.Error": "OidcError",
+	"int": "Int", "error": "String", "Storage": "AzStorage", "*IDTokenHintVerifier": "Unit"}
 
 func authzFuncs() []FuncSpec {
 	const ar = "pkg/op/auth_request.go"
@@ -229,6 +234,7 @@ func authzFuncs() []FuncSpec {
 			Params: []string{pO, pD, "(s : AzWebServer)", "(r : Request AuthRequestData)"}, Ret: RetValErr, RetType: "Redirect"},
 		{File: ar, Name: "RedirectToLogin", Lean: "RedirectToLogin", Params: []string{"(authReqID : AzStored)", pCl}, Ret: RetWrites},
 		{File: ar, Name: "ParseAuthorizeCallbackRequest", Lean: "ParseAuthorizeCallbackRequest", Params: []string{"(r : AzHttpReq)"}, Ret: RetValErr, RetType: "String"},
+		formPostSpec(),
 		{File: ar, Name: "AuthResponseToken", Lean: "AuthResponseToken",
 			Params: []string{pO, pD, "(authReq : AzStored)", "(authorizer : AzProvider)", pCl}, Ret: RetWrites},
 		{File: ar, Name: "AuthResponseCode", Lean: "AuthResponseCode", Params: []string{pO, pD, "(authReq : AzStored)", "(authorizer : AzProvider)"}, Ret: RetWrites},
@@ -236,6 +242,10 @@ func authzFuncs() []FuncSpec {
 		{File: ar, Name: "AuthorizeCallback", Lean: "AuthorizeCallback", Params: []string{pO, pD, "(r : AzHttpReq)", "(authorizer : AzProvider)"}, Ret: RetWrites},
 	}
 	for i := range fs {
+		fs[i].AutoTypes = azAutoTypes
+		if fs[i].Name == "AuthResponseFormPost" {
+			continue // carries its own rename table (formPostSpec)
+		}
 		fs[i].Rename = azRename
 		if fs[i].Name == "AuthResponseToken" {
 			// its anonymous struct wraps the token response and the session state (AuthResponseCode's: code, state, session state)
